@@ -49,8 +49,15 @@ def r6(x):
 
 @st.composite
 def excitation_vec(draw, mag=None):
-    pat = draw(st.sampled_from(["general", "general", "general", "x", "y", "z", "xy", "yz", "xz", "neg"]))
+    pat = draw(st.sampled_from(["general", "general", "general", "x", "y", "z", "xy", "yz", "xz", "neg", "sum_zero"]))
     m = draw(logfloat(-2, 1)) if mag is None else mag
+    if pat == "sum_zero":
+        # components that cancel exactly (binary fractions): (a,-a,0), (a,a,-2a), (a/2,a/4,-3a/4) and permutations -
+        # a vector like any other for the physics, a zero for code that tests a sum or product of components
+        a = float(2.0 ** draw(st.integers(-6, 3))) * (m if mag is not None else 1.0)
+        base = draw(st.sampled_from([(1.0, -1.0, 0.0), (1.0, 1.0, -2.0), (0.5, 0.25, -0.75), (-1.0, 0.0, 1.0), (0.0, 1.0, -1.0)]))
+        perm = draw(st.permutations([0, 1, 2]))
+        return [a * base[k] for k in perm]
     v = np.array([draw(ufloat(-1, 1)) for _ in range(3)])
     if np.linalg.norm(v) < 0.1:
         v = np.array([0.3, -0.5, 0.8])
@@ -337,7 +344,8 @@ def segment_dimension(draw, L=1.0):
 def source_spec(draw, classes=None, max_path=1, L=None, pos_extent=3.0, with_pose=True):
     cls = draw(st.sampled_from(list(classes or FIELD_CLASSES)))
     if L is None:
-        L = draw(logfloat(-1, 1))
+        # SI units: magnets of millimetre size given in metres are the ordinary case, not an extreme one
+        L = draw(logfloat(-3, 1))
     L = r6(L)
     spec = {"cls": cls}
     if cls == "Cuboid":
